@@ -160,10 +160,28 @@ func (d *Discharger) Discharge(vc *VC) {
 }
 
 func (d *Discharger) standalone(vc *VC, ob *Oblig, base string) {
+	if ob.Cover {
+		// reachability canary: a model of the quantifier-free part is what solvers can produce
+		qf := fmt.Sprintf("%s.%d.qf.smt2", base, ob.Index)
+		os.WriteFile(qf, []byte(vc.sc.StandaloneQF(ob.Index)), 0o644)
+		d.sem <- struct{}{}
+		r := runSolver(context.Background(), solvers[0], qf, d.TimeoutS)
+		<-d.sem
+		d.note(r)
+		if r.result == "sat" {
+			ob.Result = "sat"
+			ob.Solver = r.solver + "(quantifier-free part)"
+			ob.Seconds = r.seconds
+			ob.File = qf
+			d.credit(r.solver)
+			return
+		}
+	}
 	file := fmt.Sprintf("%s.%d.smt2", base, ob.Index)
 	q := vc.sc.Standalone(ob.Index, d.TimeoutS*1000)
 	os.WriteFile(file, []byte(q+"(get-model)\n"), 0o644)
 	ob.SMTBytes = len(q)
+	ob.File = file
 	type res struct{ r solveResult }
 	ctx, cancel := context.WithCancel(context.Background())
 	defer cancel()
@@ -237,6 +255,18 @@ func (d *Discharger) standalone(vc *VC, ob *Oblig, base string) {
 			return
 		}
 	}
+	if !ob.Cover {
+		// undecided with quantifiers: look for a candidate counterexample in the quantifier-free part
+		qf := fmt.Sprintf("%s.%d.qf.smt2", base, ob.Index)
+		os.WriteFile(qf, []byte(vc.sc.StandaloneQF(ob.Index)+"(get-model)\n"), 0o644)
+		d.sem <- struct{}{}
+		r := runSolver(context.Background(), solvers[0], qf, d.TimeoutS)
+		<-d.sem
+		d.note(r)
+		if r.result == "sat" {
+			ob.Model = "candidate model of the quantifier-free part (quantified facts dropped):\n" + r.output
+		}
+	}
 	// undecided
 	ob.Result = "unknown"
 	var parts []string
@@ -247,7 +277,6 @@ func (d *Discharger) standalone(vc *VC, ob *Oblig, base string) {
 		}
 	}
 	ob.Solver = strings.Join(parts, ",")
-	ob.Model = ""
 	for _, r := range all {
 		if r.result == "error" {
 			ob.Model += r.solver + " error: " + firstLines(r.output, 3) + "\n"
